@@ -281,13 +281,13 @@ def obligations(tier):
     for fmt in ("fasta", "gde", "phylip", "paml"):
         obs.append(Ob(f"names/{fmt}/len2/markers", __name__, "mk_names", {"fmt": fmt, "maxlen": 2, "alpha": "markers"}, timeout=1800, group="names"))
         obs.append(Ob(f"names/{fmt}/len3/blank", __name__, "mk_names", {"fmt": fmt, "maxlen": 3, "alpha": "blank"}, timeout=1800, group="names"))
-        obs.append(Ob(f"wrap/{fmt}/n14/b1-5", __name__, "mk_wrap", {"fmt": fmt, "maxn": 14, "maxb": 5}, timeout=1800, twins=("end", "wrapped"), group="wrap"))
-        obs.append(Ob(f"wrap/{fmt}/n130/b60", __name__, "mk_wrap", {"fmt": fmt, "maxn": 130, "maxb": 60, "minb": 60}, timeout=1800, twins=("end", "wrapped"), group="wrap"))
+        obs.append(Ob(f"wrap/{fmt}/n14/b1-5", __name__, "mk_wrap", {"fmt": fmt, "maxn": 14, "maxb": 5}, timeout=1800, twins=("end", "wrapped"), group="wrap", grade="realised-input"))
+        obs.append(Ob(f"wrap/{fmt}/n130/b60", __name__, "mk_wrap", {"fmt": fmt, "maxn": 130, "maxb": 60, "minb": 60}, timeout=1800, twins=("end", "wrapped"), group="wrap", grade="realised-input"))
         if T:
             obs.append(Ob(f"names/{fmt}/len3/markers", __name__, "mk_names", {"fmt": fmt, "maxlen": 3, "alpha": "markers"}, timeout=3600, group="names"))
             obs.append(Ob(f"names/{fmt}/len2/wide", __name__, "mk_names", {"fmt": fmt, "maxlen": 2, "alpha": "wide"}, timeout=3600, group="names"))
             obs.append(Ob(f"names/{fmt}/two/len2/markers", __name__, "mk_names", {"fmt": fmt, "maxlen": 2, "alpha": "markers", "two": True}, timeout=7200, group="names"))
-            obs.append(Ob(f"wrap/{fmt}/n40/b1-12", __name__, "mk_wrap", {"fmt": fmt, "maxn": 40, "maxb": 12}, timeout=3600, twins=("end", "wrapped"), group="wrap"))
+            obs.append(Ob(f"wrap/{fmt}/n40/b1-12", __name__, "mk_wrap", {"fmt": fmt, "maxn": 40, "maxb": 12}, timeout=3600, twins=("end", "wrapped"), group="wrap", grade="realised-input"))
     obs.append(Ob("names/phylip/prefix8/len2", __name__, "mk_names", {"fmt": "phylip", "maxlen": 2, "alpha": "markers", "prefix": "abcdefgh"}, timeout=1800, group="names"))
     if T:
         obs.append(Ob("names/phylip/prefix7/len3", __name__, "mk_names", {"fmt": "phylip", "maxlen": 3, "alpha": "markers", "prefix": "abcdefg"}, timeout=3600, group="names"))
